@@ -7,7 +7,7 @@ from .. import grouplab as G
 ID = "C03"
 LEVEL = "exploration"
 RULE = ("same-size families: every multiset of n files (n<=3 quick, <=5 thorough) over the variants {base, flipped at 0, "
-        "at L/2, at L-1, at 4096} for L in {1,4096,4097,65536,131073}, laid out over 1-3 directories and 1-2 roots (one layout puts the second root on a loop-mounted ext4 image, i.e. a second device with its own hashing pool; one puts the files on two fresh tmpfs instances below one root, where the k-th files have equal inode numbers on different file systems), with "
+        "at L/2, at L-1, at 4096} for L in {1,4096,4097,65536,131073}, laid out over 1-3 directories and 1-2 roots (one layout puts the second root on a loop-mounted ext4 image, i.e. a second device with its own hashing pool and its own pinned kind; one puts the files on two fresh tmpfs instances below one root, where the k-th files have equal inode numbers on different file systems), with "
         "optional hard links and repeated / overlapping roots; trees of files with equal base names in different directories under a $IN transform and pools of 4-8 threads; plus three trees whose paths concatenate to the same bytes (ab/c vs a/bc; as hard links, plain copies and directories, also with -L / -H); x replication filter {default, --rf-over 0/2/3, "
         "--rf-under 2/3, --unique} x prefix/suffix sizes, disk kind, transform {keep, shrink to two bytes (also with -H)} (thorough: hash, cache, -t 1). "
         "Oracle: independent partition of the scanned files by bytes + replica count + strict filter; the reported set of "
@@ -160,6 +160,9 @@ def evaluate(case):
         with C.Scratch() as sc:
             os.makedirs(os.path.join(sc.tree, "r2"))
             with C.LoopMount(os.path.join(sc.tree, "r2")):
+                # the second device gets its own kind (rotating): different prefix lengths and pools per device
+                k2 = ["hdd", "ssd", "unknown"][(meta["L"] + sum(meta["combo"]) + len(meta["filter"])) % 3]
+                case = dict(case, env=dict(case["env"], FCLONES_VERIF_DISK_KIND_AT="%s=%s" % (k2, os.path.join(sc.tree, "r2"))))
                 obs = G.run_group(case, scratch=sc)
                 obs["files"] = G.scan_reference(sc.tree, case)
     elif meta["layout"] == "two_tmpfs":
